@@ -952,7 +952,7 @@ def run_scenario(cfg: dict, events: list[dict], *, entry: str, perm=None, place:
                  force_mode: str | None = None, timeline: bool = False, atimeout: bool = False,
                  loop: bool = False, breaker_cfg: dict | None = None,
                  flavours: str | None = None, entry2: str | None = None,
-                 sinks: str | None = None, nosleeper: bool = False) -> list[dict]:
+                 sinks: str | None = None, nosleeper: bool = False, broken_metric: bool = False) -> list[dict]:
     """Execute the scenario through one entry point of the real library; returns the observed
     event list (same vocabulary as M's behaviours)."""
     is_async = entry.startswith(("Async", "async"))
@@ -962,6 +962,10 @@ def run_scenario(cfg: dict, events: list[dict], *, entry: str, perm=None, place:
     env.flavours = flavours
     env.single_sink = sinks
     ctor, call = retry_kwargs(env, cfg, place=place, atimeout=atimeout)
+    if broken_metric:
+        # a metric hook that cannot even be called with the documented arguments (a C-level callable:
+        # the TypeError has no Python frame of the hook's own)
+        call["on_metric"] = {}.update
     if nosleeper and not is_async:
         # no sleeper anywhere: the library's default, time.sleep, must get the delay in one call
         ctor["sleeper"] = None
